@@ -632,6 +632,12 @@ impl ObjectHandle {
     self.header().kind()
   }
 
+  /// A reference to the held object for external monitors
+  #[cfg(feature = "verif")]
+  pub fn verif_ref(&self) -> ObjectRef {
+    self.value()
+  }
+
   #[inline]
   pub fn size(&self) -> usize {
     macro_rules! kind_size {
